@@ -17,6 +17,7 @@ from __future__ import annotations
 
 import warnings
 
+import networkx as nx
 import numpy as np
 import z3
 
@@ -195,6 +196,185 @@ def csv_harness(ctx, cfg):
         _compare(ctx, p, tr2)
 
 
+# ------------------------------------------------------------------ internal save format
+class _JsonRefused(TypeError):
+    pass
+
+
+def _json_image(x):
+    """contract of json.load o json.dump on the values funtracks hands over: dict keys become strings, tuples
+    become lists, numbers / strings / booleans / None come back unchanged (symbolic numbers are numbers); any
+    other object is refused by json.dump with TypeError.  (NaN / infinity and float formatting are outside.)"""
+    if x is None or isinstance(x, (bool, int, float, str, SInt, SReal)):
+        return x
+    if isinstance(x, dict):
+        out = {}
+        for k, v in x.items():
+            if isinstance(k, bool):
+                k = "true" if k else "false"
+            elif k is None:
+                k = "null"
+            elif isinstance(k, (int, float)):
+                k = repr(k)
+            elif not isinstance(k, str):
+                raise _JsonRefused(f"keys must be str, int, float, bool or None, not {type(k).__name__}")
+            out[k] = _json_image(v)
+        return out
+    if isinstance(x, (list, tuple)):
+        return [_json_image(v) for v in x]
+    raise _JsonRefused(f"Object of type {type(x).__name__} is not JSON serializable")
+
+
+class _Files:
+    """ideal directory: what save_tracks writes is what load_tracks reads"""
+
+    def __init__(self):
+        self.json, self.npy = {}, {}
+
+
+class _FDir(X._Dir):
+    def __init__(self, files, p="/nonexistent/saved"):
+        super().__init__(p)
+        self.files = files
+
+    def __truediv__(self, o):
+        return _FDir(self.files, self.p + "/" + str(o))
+
+    def is_file(self):
+        return self.p in self.files.json or self.p in self.files.npy
+
+
+def _install_files(files):
+    import types
+
+    ifmt = X.ifmt
+
+    class _F:
+        def __init__(self, path):
+            self.path = str(path)
+
+        def __enter__(self):
+            return self
+
+        def __exit__(self, *a):
+            return False
+
+    def dump(data, f):
+        files.json[f.path] = _json_image(data)
+
+    def load(f):
+        return _json_image(files.json[f.path])  # a fresh copy on every read (the image is idempotent)
+
+    def save(path, arr):
+        if not isinstance(arr, SArr):
+            raise Unsupported("np.save of a non-modelled array")
+        files.npy[str(path)] = arr.copy()
+
+    def npload(path):
+        return files.npy[str(path)].copy()
+
+    ifmt.open = lambda path, mode="r": _F(path)
+    ifmt.json = types.SimpleNamespace(dump=dump, load=load)
+    ifmt.np = types.SimpleNamespace(save=save, load=npload, ndarray=np.ndarray, integer=np.integer,
+                                    floating=np.floating)
+
+
+def internal_harness(ctx, cfg):
+    """save_tracks, then load_tracks(solution=True), through an ideal directory (json / npy contract above)"""
+    saved = X._install()
+    X.CAP.clear()
+    files = _Files()
+    exc = tr2 = None
+    try:
+        c = dict(cfg)
+        c.update(sym_pos=True, bound_lids=True)
+        p = X.build(ctx, c)
+        ctx.allow_realise = True
+        g = p.g
+        if cfg.get("pos_ndarray") and not cfg.get("multi_pos"):
+            # positions as funtracks stores them: numpy arrays (here with symbolic entries), so that save_tracks'
+            # own conversion of numpy values runs
+            for s in range(p.N):
+                a = np.empty(len(g.nattr[s][POS]), dtype=object)
+                for q, v in enumerate(g.nattr[s][POS]):
+                    a[q] = v
+                g.nattr[s][POS] = a
+        if cfg.get("scale") == "symbolic":
+            # arbitrary positive voxel sizes (time scale included), handed over as Python floats would be
+            p.scale_sym = [z3.Real(f"scale{a}") for a in range(len(cfg.get("shape", (3, 1, 1))))]
+            for e in p.scale_sym:
+                ctx.add(e > 0)
+            p.tr.scale = [SReal(e) for e in p.scale_sym]
+            p.scale0 = list(p.tr.scale)
+            ctx.input("scale", p.scale_sym)
+        fd0 = X._fd(p.tr)
+        area0 = {}
+        if p.seg is not None:
+            for s in range(p.N):
+                area0[s] = z3.Real(f"area{p.ids[s]}")
+                g.nattr[s]["area"] = SReal(area0[s])
+        ctx.input("node_order", cfg.get("node_order"))
+        ctx.input("op", "roundtrip_internal")
+        ctx.input("select", None)
+        ctx.input("pos", {str(k): v for k, v in p.pos0.items()})
+        ctx.input("area", {str(k): v for k, v in area0.items()})
+        ctx.input("pos_ndarray", bool(cfg.get("pos_ndarray")))
+        _install_files(files)
+        d = _FDir(files)
+        try:
+            with warnings.catch_warnings():
+                warnings.simplefilter("ignore")
+                X.ifmt.save_tracks(p.tr, d)
+                if cfg.get("node_order") == "reversed":
+                    # the order of "nodes" / "links" in graph.json is the insertion order of the graph, which after an
+                    # editing session is arbitrary: this variant stores them in descending id order
+                    for k, v in files.json.items():
+                        if isinstance(v, dict) and "nodes" in v:
+                            v["nodes"].reverse()
+                            v["links"].reverse()
+                tr2 = X.ifmt.load_tracks(d, seg_required=p.seg is not None, solution=True)
+        except Unsupported:
+            raise
+        except Exception as e:
+            exc = e
+    finally:
+        X._restore(saved)
+        X.CAP.clear()
+    ctx.tag("roundtrip")
+    ctx.env.update(exc=repr(exc))
+    ctx.oblige("C14.reimport_accepted", exc is None, "C14")
+    if exc is not None:
+        return
+    if not any(True for _ in tr2.graph.nodes):
+        ctx.tag("empty")
+    _compare(ctx, p, tr2)
+    n = p.N
+    present = [p.ids[i] in tr2.graph.nodes for i in range(n)]
+    ctx.oblige("C14.same_lineage_ids", And([same_value(tr2.get_lineage_id(p.ids[i]), SInt(p.lid0[i]))
+                                             for i in range(n) if present[i]]), "C14")
+    if p.seg is not None:
+        ctx.oblige("C14.same_loaded_features", And([same_value(tr2.get_node_attr(p.ids[i], "area"), SReal(area0[i]))
+                                                    for i in range(n) if present[i]]), "C14")
+        s2 = tr2.segmentation
+        ok = isinstance(s2, SArr) and s2.c.shape == p.seg0.shape and s2.dtype == p.seg.dtype
+        ctx.oblige("C14.same_segmentation", And([z3.BoolVal(bool(ok))] + ([a == b for a, b in zip(s2.c.flat, p.seg0.flat)]
+                                                                        if ok else [])), "C14")
+    else:
+        ctx.oblige("C14.same_segmentation", tr2.segmentation is None, "C14")
+    sc2 = None if tr2.scale is None else list(tr2.scale)
+    ctx.oblige("C14.same_scale", same_value(sc2, p.scale0), "C14")
+    ctx.oblige("C14.same_registry", X._fd(tr2) == fd0 and tr2.ndim == p.tr.ndim, "C14")
+    ctx.env.update(registry=repr(X._fd(tr2)), registry0=repr(fd0))
+    # the lookups of the loaded object list the loaded ids (C06 at the reloaded state)
+    ta2 = tr2.track_annotator
+    cs = []
+    for i in range(n):
+        if present[i]:
+            m = p.ids[i]
+            cs.append(z3.BoolVal(any(m in v for v in ta2.tracklet_id_to_nodes.values())))
+    ctx.oblige("C14.loaded_lookups_cover_nodes", And(cs), "C14")
+
+
 # ------------------------------------------------------------------ replay through the real files
 def replay(f):
     import shutil
@@ -210,6 +390,8 @@ def replay(f):
     try:
         with warnings.catch_warnings():
             warnings.simplefilter("ignore")
+            if inp["op"] == "roundtrip_internal":
+                return _replay_internal(inp, ob, tmp)
             inp2 = dict(inp)
             inp2["seg"] = None
             tr = build_real(inp2)
@@ -263,3 +445,77 @@ def replay(f):
         return False, "no oracle for " + ob
     finally:
         shutil.rmtree(tmp, ignore_errors=True)
+
+
+def _replay_internal(inp, ob, tmp):
+    import copy
+
+    from funtracks.import_export.internal_format import load_tracks, save_tracks
+
+    from harness.export_replay import build_real
+
+    if inp.get("scale") is not None:
+        inp = dict(inp)
+        inp["scale"] = [float(M._num(x)) for x in inp["scale"]]
+    tr = build_real(inp)
+    pos = {int(k): [M._num(x) for x in v] for k, v in inp["pos"].items()}
+    area = {int(k): M._num(v) for k, v in (inp.get("area") or {}).items()}
+    for n in tr.graph.nodes:
+        vals = pos[n - 1]
+        if inp.get("multi_pos"):
+            tr.graph.nodes[n]["y"], tr.graph.nodes[n]["x"] = vals
+        else:
+            tr.graph.nodes[n][POS] = np.array(vals, dtype=float) if inp.get("pos_ndarray") else list(vals)
+        if area:
+            tr.graph.nodes[n]["area"] = area[n - 1]
+
+    def fd(t):
+        f = t.features
+        return (copy.deepcopy({k: dict(v) for k, v in f.items()}), f.time_key, str(f.position_key), f.tracklet_key,
+                f.lineage_key)
+
+    def obs(t):
+        return {n: dict(time=t.get_time(n), pos=[float(x) for x in t.get_position(n)], tid=t.get_track_id(n),
+                        lid=t.get_lineage_id(n), area=t.get_node_attr(n, "area") if area else None)
+                for n in t.graph.nodes}
+
+    g0, a0, fd0 = nx.DiGraph(tr.graph), obs(tr), fd(tr)
+    seg0 = None if tr.segmentation is None else np.array(tr.segmentation)
+    scale0 = copy.deepcopy(tr.scale)
+    exc = tr2 = None
+    try:
+        save_tracks(tr, tmp / "saved")
+        tr2 = load_tracks(tmp / "saved", seg_required=seg0 is not None, solution=True)
+    except Exception as e:
+        exc = e
+    detail = f"original nodes={ {n: a0[n] for n in sorted(a0)} } edges={sorted(g0.edges)} scale={scale0} -> exc={exc!r}"
+    if ob == "C14.reimport_accepted":
+        return exc is not None, detail
+    if exc is not None:
+        return False, detail
+    g2, a2 = tr2.graph, obs(tr2)
+    detail += f" reloaded nodes={ {n: a2[n] for n in sorted(a2)} } edges={sorted(g2.edges)} scale={tr2.scale}"
+    common = [n for n in g0.nodes if n in g2.nodes]
+    key = {"C14.same_times": "time", "C14.same_positions": "pos", "C14.same_track_ids": "tid",
+           "C14.same_lineage_ids": "lid", "C14.same_loaded_features": "area"}
+    if ob == "C14.same_nodes":
+        return sorted(g2.nodes) != sorted(g0.nodes), detail
+    if ob == "C14.same_edges":
+        return sorted(g2.edges) != sorted(g0.edges), detail
+    if ob in key:
+        return any(not M._eq(a0[n][key[ob]], a2[n][key[ob]]) for n in common), detail
+    if ob == "C14.same_segmentation":
+        s2 = tr2.segmentation
+        if seg0 is None or s2 is None:
+            return (seg0 is None) != (s2 is None), detail
+        return not (s2.shape == seg0.shape and s2.dtype == seg0.dtype and np.array_equal(s2, seg0)), \
+            detail + f" seg {seg0.tolist()} -> {np.asarray(s2).tolist()} ({seg0.dtype} -> {s2.dtype})"
+    if ob == "C14.same_scale":
+        return not ((tr2.scale is None and scale0 is None) or (tr2.scale is not None and scale0 is not None
+                                                                and M._eq(list(tr2.scale), list(scale0)))), detail
+    if ob == "C14.same_registry":
+        return fd(tr2) != fd0 or tr2.ndim != tr.ndim, detail + f" registry {fd0} -> {fd(tr2)}"
+    if ob == "C14.loaded_lookups_cover_nodes":
+        ta = tr2.track_annotator
+        return any(not any(n in v for v in ta.tracklet_id_to_nodes.values()) for n in g2.nodes), detail
+    return False, "no oracle for " + ob
